@@ -228,6 +228,22 @@ def run(ctx):
                         kw = dict(freq=freq, interval=interval, dtstart=st, count=6, **day)
                         one_rule(ctx, R, probe, kw, {'start_kind': 'naive'})
                         ctx.count('subdaily_day_jump_rules')
+        # directed: sub-daily rules whose interval shares a large factor with the day, filtered down to the time of day the
+        # rule starts at - the only admissible state of the time-of-day cycle is the current one, which recurs only after
+        # a complete cycle (an advance loop one step short of the cycle calls such a rule empty)
+        k = 0
+        for freq, intervals in ((R.SECONDLY, (60, 1800, 3600, 7200, 43200, 86400, 172800)), (R.MINUTELY, (30, 60, 720, 1440, 2880)),
+                                (R.HOURLY, (6, 8, 12, 24, 48))):
+            for interval in intervals:
+                for st in (D.datetime(1997, 9, 2, 9, 0, 0), D.datetime(2001, 2, 27, 21, 30, 15), D.datetime(2000, 12, 30, 0, 7, 1)):
+                    for by in ({}, {'byhour': [st.hour]}, {'byhour': [st.hour], 'byminute': [st.minute]}, {'byminute': [st.minute]},
+                               {'byhour': [st.hour], 'byminute': [st.minute], 'bysecond': [st.second]}, {'byhour': [(st.hour + 12) % 24, st.hour]}):
+                        k += 1
+                        if k % ctx.nshards != ctx.shard:
+                            continue
+                        kw = dict(freq=freq, interval=interval, dtstart=st, count=5, **by)
+                        one_rule(ctx, R, probe, kw, {'start_kind': 'naive'})
+                        ctx.count('single_state_cycle_rules')
         # rules that can never match: ValueError or nothing, never a wrong instant
         for base in NEVER:
             for st in (D.datetime(1997, 9, 2, 9, 0, 0), D.datetime(2000, 2, 29, 1, 7, 30)):
@@ -264,6 +280,8 @@ def floors(agg, tier):
         out.append('period probe could not locate the loop header / cursor: iterations were bounded by line budget only')
     if c.get('subdaily_day_jump_rules', 0) < 150:
         out.append('only %d directed sub-daily day-jump rules' % c.get('subdaily_day_jump_rules', 0))
+    if c.get('single_state_cycle_rules', 0) < 250:
+        out.append('only %d directed single-state-cycle rules' % c.get('single_state_cycle_rules', 0))
     if c.get('weekno_boundary_rules', 0) < 1500:
         out.append('only %d directed week-number rules' % c.get('weekno_boundary_rules', 0))
     if c.get('never_matching_rules', 0) < len(NEVER) * 2:
